@@ -68,6 +68,81 @@ def runEngine (j : Json) : P Json := do
     | _ => pure (allOutcomes syms rule.exprs (combine (visible tr out.facts) rule.body (MV.new (bodyVars rule.body))))
   pure (Json.mkObj [("r", r), ("iterations", out.iterations), ("facts", factsOut out.facts), ("queries", Json.arr qs.toArray)])
 
+/-- is the outcome of some check or policy of the case dependent on the iteration order of
+    the fact store (a binding that matches and a binding that fails, or a counter-example and
+    a failing binding)? -/
+def queryAmbiguous (syms : SymbolTable) (facts : List (List Nat × Fact)) (kind : CheckKind)
+    (trusted : List Nat) (blk : Nat) (r : Rule) : Bool :=
+  match kind with
+  | .all =>
+    let rs := (combine (visible trusted facts) r.body (MV.new (bodyVars r.body))).map
+      fun ob => evalExprs r.exprs ob.2 (TempSyms.new syms)
+    (rs.any fun x => match x with | .ok false => true | _ => false) &&
+      (rs.any fun x => match x with | .error _ => true | _ => false)
+  | _ =>
+    let rs := applyRule syms (visible trusted facts) blk r
+    (rs.any fun x => match x with | .ok (some _) => true | _ => false) &&
+      (rs.any fun x => match x with | .error _ => true | _ => false)
+
+def caseAmbiguous (syms : SymbolTable) (facts : List (List Nat × Fact)) (blocks : List Block) (az : AuthorizerData) : Bool :=
+  let km := keyMap blocks
+  let azT := authorizerTrusted az km
+  let chk (dflt : List Nat) (blk : Nat) (c : Check) : Bool :=
+    c.queries.any fun q => queryAmbiguous syms facts c.kind (trustedFromScopes q.scopes dflt blk km) blk q.rule
+  az.checks.any (chk azT authorizerId) ||
+  (az.policies.any fun p => p.queries.any fun q =>
+    queryAmbiguous syms facts .one (trustedFromScopes q.scopes azT authorizerId km) authorizerId q.rule) ||
+  ((enumFrom 0 blocks).any fun ib =>
+    ib.2.checks.any (chk (trustedFromScopes ib.2.scopes defaultTrusted ib.1 km) ib.1))
+
+def headVarsBound (r : Rule) : Bool :=
+  r.head.terms.all fun t => match t with
+    | .var v => (bodyVars r.body).contains v
+    | _ => true
+
+def runAuthz (j : Json) : P Json := do
+  let pool ← parsePool (← field j "pool")
+  let blocks ← (← getArr (← field j "blocks")).mapM parseBlock
+  let az ← parseAz (← field j "az")
+  let lj ← field j "limits"
+  let tmo : Option Nat := match fieldOpt lj "t" with
+    | some (.num n) => some n.mantissa.toNat
+    | _ => none
+  let lim : Limits := ⟨← getNat (← field lj "f"), ← getNat (← field lj "i"), tmo⟩
+  let queries ← (← getArr (← field j "queries")).mapM fun q => do
+    pure ((← (← field q "all").getBool?), ← parseQRule (← field q "q"))
+  -- interning: blocks and authorizer first, then the queries, in the order they are issued
+  let (tbl, blocksI, azI) := internCase pool blocks az
+  let (tbl, queriesI) := queries.foldl (fun (acc : ITable × List (Bool × QRule)) q =>
+    let (t', q') := internQRule pool acc.1 q.2
+    (t', acc.2 ++ [(q.1, q')])) (tbl, [])
+  let syms := tbl.syms
+  if blocksI.any (fun b => b.rules.any fun q => !headVarsBound q.rule) then
+    return Json.mkObj [("r", "invalid-rule")]
+  let out := run syms (worldRules blocksI azI) lim (factMerge [] (worldFacts blocksI azI))
+  let get := syms.getSymbol
+  let qs : List Json := queriesI.map fun (all, q) =>
+    match out.result with
+    | .error e => Json.mkObj [("r", runErrOut e)]
+    | .ok () =>
+      let tr := if all then queryAllTrusted blocksI q else queryTrusted blocksI q
+      match queryRule syms out.facts tr (if all then 0 else authorizerId) q.rule with
+      | .ok fs => Json.mkObj [("facts", Json.arr (fs.map (fun of => factStr get of.2)).toArray)]
+      | .error _ => Json.mkObj [("r", "exec")]
+  let extra : List (String × Json) := [("iterations", out.iterations), ("fact_count", out.facts.length), ("queries", Json.arr qs.toArray)]
+  match out.result with
+  | .error e => pure (Json.mkObj ([("r", Json.str (runErrOut e))] ++ extra))
+  | .ok () =>
+    let amb := caseAmbiguous syms out.facts blocksI azI
+    let res := decide syms out.facts blocksI azI
+    let base : List (String × Json) := match res with
+      | .ok p => [("r", "ok"), ("p", p)]
+      | .noMatchingPolicy f => [("r", "nomatch"), ("failed", failedOut f)]
+      | .unauthorized k p f => [("r", "unauth"), ("pk", if k == .allow then "allow" else "deny"), ("p", p), ("failed", failedOut f)]
+      | .runError e => [("r", Json.str (runErrOut e))]
+      | .exprError _ => [("r", "exec")]
+    pure (Json.mkObj (base ++ extra ++ (if amb then [("amb", Json.bool true)] else [])))
+
 def handle (line : String) : String :=
   match Json.parse line with
   | .error e => (Json.mkObj [("driver_error", s!"parse: {e}")]).compress
@@ -77,6 +152,7 @@ def handle (line : String) : String :=
       match op with
       | "expr" => runExpr j
       | "engine" => runEngine j
+      | "authz" => runAuthz j
       | _ => throw s!"unknown op {op}"
     match r with
     | .ok o => o.compress
